@@ -115,9 +115,54 @@ func readSeq(g *hx.Gen, size int) []int {
 	return out
 }
 
+// long keys: the 4-octet block index INT(i) carries into its 2nd octet at block 256 and into the 3rd at
+// block 65536; iter = 1 keeps > 65 537 blocks cheap.  Observable: total length, the bytes of the key inside
+// chosen blocks (first, around the carries, last / last partial) and, with full=1, sha256 of the whole key.
+func genLongKeys(g *hx.Gen) {
+	r := g.R
+	emit := func(a alg, nblocks, partial int, full int, iter int) {
+		kl := nblocks*a.size + partial
+		last := nblocks
+		if partial > 0 {
+			last++
+		}
+		cand := []int{1, 2, 255, 256, 257, 258, 65535, 65536, 65537, 65538, last - 1, last}
+		var blocks []int
+		seen := map[int]bool{}
+		for _, b := range cand {
+			if b >= 1 && b <= last && !seen[b] {
+				seen[b] = true
+				blocks = append(blocks, b)
+			}
+		}
+		g.Stat("pbw." + a.name)
+		if last > 65536 {
+			g.Stat("pbw.blocks>65536")
+		} else if last > 256 {
+			g.Stat("pbw.blocks>256")
+		}
+		if partial > 0 {
+			g.Stat("pbw.last-partial")
+		}
+		g.Emit("pbw hash=%s pw=%s salt=%s iter=%d keylen=%d blocks=%s full=%d", a.name, hx.Hex(someBytes(r, 40)),
+			hx.Hex(someBytes(r, 40)), iter, kl, hx.JoinInts(blocks), full)
+	}
+	sha1A, sha256A, sha512A := algs[0], algs[1], algs[2]
+	// > 65 536 blocks: one whole-key digest (SHA-1), windows only for the others
+	emit(sha1A, 65537, r.Range(1, 19), 1, 1)
+	emit(sha256A, 65536+r.Intn(3), r.PickInt(0, 1, 31), 0, 1)
+	emit(sha512A, 65537, r.PickInt(0, 63), 0, 1)
+	emit(sha1A, 65536, 0, 0, 1) // last block is number 65536 exactly
+	// the 255/256/257 carry with whole-key digests, several hashes and iteration counts
+	for _, a := range algs {
+		emit(a, r.PickInt(255, 256, 257, 300), r.Intn(a.size), 1, r.PickInt(1, 1, 2, 3))
+	}
+}
+
 func gen(g *hx.Gen) {
 	n := g.Count(2500, 40000)
 	r := g.R
+	genLongKeys(g)
 	for i := 0; i < n; i++ {
 		a := pickAlg(r)
 		switch k := r.Intn(10); {
@@ -338,6 +383,30 @@ func exec(line string) string {
 		return strings.Join(outs, "|")
 	case "ex":
 		return hx.Hex(hkdf.Extract(a.new, o.Hex("secret"), o.Hex("salt")))
+	case "pbw":
+		return hx.Catch(func() string {
+			kl := o.Int("keylen")
+			key := pbkdf2.Key(o.Hex("pw"), o.Hex("salt"), o.Int("iter"), kl, a.new)
+			if len(key) != kl {
+				return fmt.Sprintf("len=%d", len(key))
+			}
+			outs := []string{fmt.Sprintf("len=%d", kl)}
+			if o.Str("full") == "1" {
+				d := sha256.Sum256(key)
+				outs[0] += " sha256=" + hx.Hex(d[:])
+			}
+			for _, i := range o.Ints("blocks") {
+				lo, hi := (i-1)*a.size, i*a.size
+				if hi > kl {
+					hi = kl
+				}
+				if i < 1 || lo > kl {
+					return "bad-op"
+				}
+				outs = append(outs, fmt.Sprintf("%d:%s", i, hx.Hex(key[lo:hi])))
+			}
+			return strings.Join(outs, "|")
+		})
 	case "pb":
 		return hx.Catch(func() string {
 			return hx.Hex(pbkdf2.Key(o.Hex("pw"), o.Hex("salt"), o.Int("iter"), o.Int("keylen"), a.new))
